@@ -37,8 +37,9 @@ def dead_writes(r):
     """calls whose `sendall` was attempted on a socket the loop thread had already shut down (or after `_sock = None` was stored) -
     the window between the `sockclose` of `_close_socket()` and the stores that make `_check_writable` refuse (`_sock = None`,
     `closed = True`), reachable when the loop is abandoned (`ab`) or the request write fails (`cn` + fail).  The real code raises
-    TransportFail (swallowed by close()) and writes nothing; the thread model has no failing write on a shut socket (its `write1`
-    appends to the wire): these runs are judged by the oracle alone and counted (a documented gap of the model, not of lomond)."""
+    TransportFail (swallowed by close()) and writes nothing; so does the thread model (`failWrite` on `sockShut`; theorems
+    `C11Dead.wire_frozen_after_shut`, `send_after_shut_fails`): these runs are compared with the model like all others.  Harness
+    bookkeeping, used by the ORACLE only: a TransportFail of such a call was not injected by the harness, and is legitimate."""
     return {(t, c) for t, c in r.get('dead_writes', [])}
 
 
@@ -441,6 +442,8 @@ def judge_wire(case, r):
                 must.append((t, i, e))
                 if (t, i) in failed_sendalls:
                     fails.append(('swallowed-transport-fail', 'the sendall of call %d of thread %d (%s) was made to fail but the call returned ok' % (i, t, tok)))
+                if (t, i) in dead_writes(r):
+                    fails.append(('swallowed-transport-fail', 'the sendall of call %d of thread %d (%s) was attempted on the socket the loop had shut down, but the call returned ok' % (i, t, tok)))
             else:
                 mustnot.append((t, i, e))
                 if res[i] == 'TransportFail':
@@ -662,18 +665,18 @@ def run_and_compare(res, cases, judge, model_ok):
             continue
         # cases that start before the connection exists (`cn`, model state `initPre`) and cases that abandon the loop (`ab`) are
         # compared with the thread model like all others
-        lines.append(None if dead_writes(r) else model_line(c, r['steps']))
+        lines.append(model_line(c, r['steps']))
         idx.append(k)
-    todo = [l for l in lines if l is not None]
-    mres = iter(runner.model_run(todo) if (model_ok and todo) else [None] * len(todo))
-    models = [None if l is None else next(mres) for l in lines]
+    models = runner.model_run(lines) if (model_ok and lines) else [None] * len(lines)
     seen_cls = {}
     for k, line, m in zip(idx, lines, models):
         c, r = cases[k], reals[k]
-        if is_pre(c) and line is not None:
+        if is_pre(c):
             res.count('model_compared_cases_starting_before_connect_or_abandoning')
-        if line is None:
-            res.count('oracle_only_write_attempted_on_socket_already_shut_by_the_loop (model gap: no failing write on a shut socket)')
+        if dead_writes(r):
+            # formerly judged by the oracle alone (the model had no failing write on a shut socket)
+            res.count('model_compared_write_attempted_on_socket_already_shut_by_the_loop' if m is not None
+                      else 'NOT_model_compared_write_attempted_on_socket_already_shut_by_the_loop')
         key = (c['z'], progs_str(c), tuple(t for t, _ in r['steps']), c['mode'], env_keys(c))
         res.case(key, nontrivial=interleaved(r['steps']))
         res.count('mode_' + c['mode'])
